@@ -322,6 +322,8 @@ func HandleSetFileInfo(cc *hotline.ClientConn, t *hotline.Transaction) (res []ho
 			if err != nil {
 				return res
 			}
+			// The new name is a single path component: strip any directory part so the rename stays in fileDir.
+			hlFile.Name = filepath.Base(filepath.Join("/", hlFile.Name))
 
 			err = hlFile.Move(fileDir)
 			if os.IsNotExist(err) {
